@@ -179,6 +179,35 @@ def run(ck: Check):
                                     signature={"layer": "dense", "param": par, "what": "gumbel-hard-single-gate"})
                         break
         ck.count("gumbel_hard_draws", 30)
+    # changing the sampling mode never changes what eval mode computes: the eval output of one layer under each of the four modes
+    # (set on the live object), three calls each, is one and the same tensor - also for near-tied logits, where a perturbed argmax shows
+    from torchlogix.layers import LogicConv2d as _C2e
+    for par in ("raw", "walsh"):
+        for kind in ("dense", "conv"):
+            torch.manual_seed(ck.seed + 41)
+            if kind == "dense":
+                l = LogicDense(5, 40, device="cpu", parametrization=par, weight_init="random")
+                xb = torch.tensor(nets.all_rows(5), dtype=torch.float32)
+            else:
+                l = _C2e(in_dim=(3, 3), device="cpu", channels=1, num_kernels=6, tree_depth=2, receptive_field_size=2, parametrization=par, weight_init="random")
+                xb = torch.tensor(nets.all_rows(9)[::5], dtype=torch.float32).reshape(-1, 1, 3, 3)
+            with torch.no_grad():
+                for p_ in l.parameters():
+                    p_.mul_(0.05)                      # logits / coefficients close together: noise of size 1 would reorder them
+            l.eval()
+            outs = {}
+            for mode in ("soft", "hard", "gumbel_soft", "gumbel_hard"):
+                l.forward_sampling = mode
+                with torch.no_grad():
+                    outs[mode] = [l(xb) for _ in range(3)]
+            case = {"layer": kind, "param": par, "what": "eval under every sampling mode"}
+            ck.case(case, nontrivial=True, kind="eval-mode-independent")
+            base = outs["soft"][0]
+            bad = [(m, i) for m, ys in outs.items() for i, y in enumerate(ys) if not torch.equal(y, base)]
+            if bad:
+                ck.disagree("the eval-mode output of a layer depends on its sampling mode / differs between calls (eval must not sample)",
+                            dict(case, mode=bad[0][0], call=bad[0][1], differing=int((outs[bad[0][0]][bad[0][1]] != base).sum())),
+                            signature={"layer": kind, "param": par, "what": "eval-depends-on-mode"})
     return ck.finish()
 
 
